@@ -9,7 +9,10 @@ Tie
     locate.find_duplicates / flippv / index2bool / index2slice / mat_intersect / list_intersect /
     merge_lists / find_subseq on integer data (index vectors and exception kinds compared exactly);
     n2p.make_uset with coordinates, n2p.upasetpv / upqsetpv on generated nas2cam-like dictionaries
-    (harness/props/c18_nas.py) and on the nas2cam files of pyYeti's own tests.
+    (harness/props/c18_nas.py) and on the nas2cam files of pyYeti's own tests;
+    n2p.formtran / formulvs / formdrm / addulvs on those dictionaries completed with small integer got / goq / gm /
+    pha / phg matrices (harness/props/c18_tran.py: matrices, output DOF and exception kinds compared exactly), and
+    the table n2p.usetprt returns.
 Oracle (model-free): the set identities, look-up contract and defining equations restated on the
 public API with the documented membership table written out by hand below.
 """
@@ -23,13 +26,17 @@ import numpy as np
 from runner import Infra, TieBroken
 
 ID = "C18"
-LEAN_MODULES = ["PyYetiVerif.Props.C18", "PyYetiVerif.Props.C18Up", "PyYetiVerif.Props.C18Idx", "PyYetiVerif.Props.C18Xyz", "PyYetiVerif.Audit.C18"]
+LEAN_MODULES = ["PyYetiVerif.Props.C18", "PyYetiVerif.Props.C18Up", "PyYetiVerif.Props.C18Idx", "PyYetiVerif.Props.C18Xyz",
+                "PyYetiVerif.Props.C18Tran", "PyYetiVerif.Props.C18Ulvs", "PyYetiVerif.Props.C18Prt", "PyYetiVerif.Props.C18Cyc",
+                "PyYetiVerif.Props.C18Tran0", "PyYetiVerif.Props.C18TranM",
+                "PyYetiVerif.Audit.C18"]
 AUDIT_FILE = "PyYetiVerif/Audit/C18.lean"
 THEOREMS = [
     "PyYetiVerif.C18." + n
     for n in (
         "base_sets_disjoint superset_is_union superset_is_union_bitwise user_sets_separate inSet_subword table_partition mksetpv_refuses_iff mksetpv_spec mksetpv_named expanddof_digits expanddof2_spec lookup_sound lookup_complete mkdofpv_strict_iff mkdofpv_spec mkdofpv_positions mkdofpv_set mat_intersect_spec find_subseq_spec list_intersect_spec flippv_spec index2bool_spec normIndex_spec find_vals_spec find_rows_spec find_unique_spec find_duplicates_spec index2slice_cases index2slice_spec merge_lists_spec merge_lists_inserts mkusetmask_plus mksetpv_plus make_uset_sets make_uset_accepts make_uset_sets_partial make_uset_split_rows make_uset_ids make_uset_coords_partial upasetpv_spec scatter_spec upqsetpv_length upqsetpv_one_upstream qupOwn_spec "
-        "upqsetpv_fuel_stable upqsetpv_fuel_suffices upqsetpv_cycle_diverges cyclic_not_acyclic QConn_iff upqsetpv_spec canFlag_of_flagged separate_of_check upqIdx_eq_upasetpv upasetpv_perm mat_intersect_order mat_intersect_keep1 mat_intersect_keep2 mat_intersect_keep0 mat_intersect_keep_other findse_spec findse_find? nodeIds_spec nodeIds_make xyz_triple_exact find_xyz_triples_exact"
+        "upqsetpv_fuel_stable upqsetpv_fuel_suffices upqsetpv_cycle_diverges cyclic_not_acyclic QConn_iff upqsetpv_spec canFlag_of_flagged separate_of_check upqIdx_eq_upasetpv upasetpv_perm mat_intersect_order mat_intersect_keep1 mat_intersect_keep2 mat_intersect_keep0 mat_intersect_keep_other findse_spec findse_find? nodeIds_spec nodeIds_make xyz_triple_exact find_xyz_triples_exact "
+        "formtran_partition_identity formtran_aset_identity formtran_columns_are_target_set ulvsPath_spec ulvsLoop_chain formulvs_chain_is_product formulvs_noshortcut formulvs_cases formdrm_is_rows_of_formtran formdrm_same_se addulvs_consistent memberCol_spec usetprt_table_is_partition_listing mask_expression_is_union mask_expression_members mask_expression_append mask_expression_absorbs mkdofpv_expression find_subseq_mem_iff find_subseq_errors find_rows_other_length mat_intersect_duplicates index_helpers_refuse_together upqsetpv_never_returns_of_progress upqsetpv_cyclic_diverges formtran0_gset formtran0_gset_repeated formtran0_phg formtran0_pha formtran_mset_composition dotChain_append ulvsPath_mono ulvsPath_split"
     ).split()
 ]
 TRUSTED = [
@@ -54,6 +61,16 @@ TRUSTED = [
     "where a square root occurs); the model reports `borderline` when two sides are within 1e-9 (relative) and those "
     "inputs are skipped; a non-singular block on the grid 1/16 with entries up to 128 has cond < 1e12, so `cond > 1/eps` "
     "is `det = 0` there",
+    "formtran / formulvs / formdrm / addulvs: numpy fancy-index assignment (`tran[rows, cols] = block`, later column "
+    "wins), `np.ix_` on boolean vectors (= their nonzero() indices), `np.dot` with the scalar 1.0, `np.any(gmo, 0)`, "
+    "pandas `.iloc[rows, :0].reset_index()` are modelled (setCols / takeIdx / dotU / anyCols) and correspondence-checked; "
+    "matrix entries are small integers so that every float64 product is exact; RuntimeWarnings (got / goq absent) are "
+    "not compared; on the nas2cam files of pyYeti's tests the matrices are floats: the driver runs the same model over "
+    "exact rationals (entries sent as n/2^k) and the result is compared to 1e-9 of its largest entry; "
+    "harness/props/c18_tran.py computes the oracle's reference displacements from the defining relations "
+    "u_o = GOT u_t + GOQ u_q, u_m = GM u_n, u_s = 0 level by level (never through formtran or the Lean model)",
+    "the `[id, dof]` rows compared by locate.mat_intersect inside formtran are two-element integer lists in the driver "
+    "(lexicographic order); the theorems are stated for every linearly ordered row type",
     "n2p._findse / n2p._get_node_ids are private helpers: they are compared directly while they exist (a refactoring "
     "that removes them skips those two streams; upasetpv / upqsetpv, which use them, stay compared)",
 ]
@@ -68,7 +85,12 @@ RULE = (
     "without q-set, boundary grids shared by two upstream SEs), each also with one inconsistency (16 kinds: missing "
     "entries, out-of-range / negative / short / permuted maps, scale != 1, dropped / extra / repeated dnids, short "
     "upids, selist rows dropped / repeated, a cyclic selist), the two dictionaries of the Lean examples, plus the three "
-    "nas2cam files of pyYeti's own tests; selists with repeated / absent SEs for _findse, tables with rows removed for "
+    "nas2cam files of pyYeti's own tests; the same generated dictionaries completed with integer got / goq / gm (also "
+    "absent got / goq, gm independent of the o-set) and phg or pha (+ gm) for the residual: formtran on the residual "
+    "(gset / phg / pha) and on 1-2 upstream SEs with requests of 1-D ids, component lists, a-set-only DOF, repeated and "
+    "missing DOF; formulvs from every upstream SE to the residual and to an intermediate SE with random keepcset / "
+    "shortcut / gset; formdrm; addulvs with and without an `ulvs` entry already stored; usetprt(0, uset, printsets) with "
+    "'*', the default, and random lists (upper case, blanks, repeated and unknown names); selists with repeated / absent SEs for _findse, tables with rows removed for "
     "_get_node_ids; mat_intersect with keep 0/1/2/3/5 on distinct rows in shuffled and descending order; rigid-body "
     "matrices for find_xyz_triples on the grid 1/16 (1-4 nodes at quarter coordinates, signed-permutation / sheared / "
     "non-orthogonal local systems, scales 1 2 3 4 10, rotation rows, deleted rows, perturbed rotation entries, tol 0.01 "
@@ -86,6 +108,11 @@ ASSUMPTIONS = [
     "(upqsetpv_fuel_suffices); on a cyclic selist the model's `.recursion` is compared with Python's RecursionError "
     "(a call chain longer than len(selist)+1 repeats an SE, and the routine is a function of the SE id alone); maps hold "
     "integer-valued floats; make_uset coordinates are copied, not computed (integer-valued xyz in the correspondence)",
+    "formtran / formulvs / formdrm / addulvs: the stored matrices have the shapes of their sets (got |o| x |t|, goq "
+    "|o| x |q|, gm |m| x |n|, pha |a| x k, phg |g| x k) and hold integers; the selist path from seup reaches sedn "
+    "(otherwise the real `while True` loop ends in a KeyError or never ends: the model's fuel selist.length+1, reply "
+    "`fuel`, is never compared); formtran_partition_identity assumes that no DOF is in the t-set and the q-set at once "
+    "(hdis; true for every table of base-set words)",
     "upqsetpv_spec: the dictionary has separate connections (Separate; decidable test separateB, evaluated by the "
     "driver on every generated dictionary and on the nas2cam files of pyYeti's tests)",
 ]
@@ -102,16 +129,33 @@ PARTIAL = (
     "and on the three nas2cam files); outside it - a later upstream SE overwriting the flag of an earlier one at a "
     "shared place (counterexample overlapNas: the hypothesis is necessary), numpy broadcasting of a one-element flag "
     "vector - the routine is modelled and correspondence-checked, nothing is claimed. Recursion: proved that the fuel "
-    "selist.length+1 is never used up on an acyclic selist and that two SEs naming each other use up every fuel; that "
-    "every other cyclic selist makes the real code recurse for ever is argued (pigeonhole), not proved, and tied by the "
+    "selist.length+1 is never used up on an acyclic selist, and (upqsetpv_cyclic_diverges, pigeonhole) that a model run "
+    "which uses up that fuel returns a value at no fuel at all - the unbounded recursion of the real code cannot "
+    "return; that Python then ends it with RecursionError (rather than by a look-up error first) is tied by the "
     "recursion-error branch. n2p.find_xyz_triples is modelled with exact rational decisions and proved on exact data "
     "(find_xyz_triples_exact: a matrix made of x, y, z triples of nodes in orthogonal local systems at any scale - every "
     "row is marked, with the node's location and scale); on inexact data (entries within the tolerances, rotation rows, "
     "missing rows - the documented way the routine can be tricked) it is tied by the correspondence only, inputs with a "
     "comparison within 1e-9 of its threshold or with a singular window of equal column norms are skipped and counted, "
-    "and cond(T1) > 1/eps is modelled as det T1 = 0. formtran / formulvs / formdrm / addulvs (matrix routines built on "
-    "the set vectors) and usetprt (text) are not modelled. Float / mixed int-float inputs are dyadic (k/4) and modelled over "
-    "scaled Int; non-dyadic floats (rounding in tol*max, correlate, abs(diff) <= tol) are outside the exact model"
+    "and cond(T1) > 1/eps is modelled as det T1 = 0. Matrix routines: formtran is proved row by row - se != 0: t-, q-, o-, "
+    "s-set rows for any ring-like entry type (formtran_partition_identity, formtran_aset_identity), m-set rows in closed "
+    "form over a semiring (formtran_mset_composition: GM composed with the n-set rows, the np.any(gmo, 0) pruning "
+    "shown irrelevant) under the hypotheses that no DOF is in the t- and the q-set at once and that got / goq rows have "
+    "their declared width; residual: formtran0_gset (for requests without a repeated DOF), formtran0_phg, "
+    "formtran0_pha (a-set rows = pha rows, s-set rows zero, m-set rows only located in `gm[:, a_n] @ pha`, not expanded). "
+    "The rows picked by `iddof[<positions within the g-set>]` are table rows only when every row of the table is in the "
+    "g-set (no extra points): the theorems state the code's indexing literally, and the residual with an extra point "
+    "in front of a-set DOF is reported as finding formtran-se0-pha-extra-point-rows; a DOF named twice with gset=True "
+    "(pvdof not Nodup; formtran0_gset_repeated is the smallest instance) is finding "
+    "formtran-se0-gset-repeated-dof. formulvs / formdrm / addulvs are proved as products / rows / stored entries of "
+    "formtran levels (formulvs_chain_is_product: left-to-right product along the tree path; associativity of the list "
+    "matrix product is not proved: ULVS(a->c) is proved to be the chain continued from ULVS(a->b) through the levels below b "
+    "(dotChain_append, ulvsPath_split), that this equals ULVS(a->b) ULVS(b->c) is checked by the oracle only). usetprt: the returned "
+    "table is proved (usetprt_table_is_partition_listing), the printed text is not modelled. On the nas2cam files of "
+    "pyYeti's tests (non-integer matrices) the matrix routines are compared numerically (model over exact rationals, "
+    "1e-9 of the largest entry), not exactly. Float / mixed int-float inputs are "
+    "dyadic (k/4) and modelled over scaled Int; non-dyadic floats (rounding in tol*max, correlate, abs(diff) <= tol) "
+    "are outside the exact model"
 )
 MANIFEST = {
     "level_text": "proof: lattice theorems decided on the table generated from the source; mksetpv (also with '+' "
@@ -124,13 +168,23 @@ MANIFEST = {
     "flag = connected to an upstream q-set DOF, by induction on the recursion) for dictionaries with separate "
     "connections, termination of its recursion exactly on acyclic selists, the places of its connections = upasetpv, "
     "upasetpv with a permutation map is a permutation of the boundary rows; _findse, _get_node_ids; find_xyz_triples "
-    "finds every node of a matrix of exact triples (location and scale); exact correspondence",
+    "finds every node of a matrix of exact triples (location and scale); formtran (se != 0): one row per requested "
+    "DOF in request order, unit vector at the a-set column for t- and q-set DOF, stored got / goq row scattered to the "
+    "t- and q-columns for o-set DOF, zero for s-set DOF, GM composed with the n-set rows for m-set DOF (semiring), "
+    "columns = the a-set (any linear order of the [id, dof] rows); residual: g-set selection / phg rows / pha recovery; formulvs = left-to-right product of the per-level formtran matrices along the tree path for "
+    "any depth and any keepcset / shortcut / gset; formdrm = rows of formtran times ULVS; addulvs stores exactly "
+    "formulvs; the table of usetprt is the listing of the requested sets (each DOF once, table order, numbered per "
+    "set); mkusetmask expressions are unions (idempotent, commutative, associative), mkdofpv on expressions; "
+    "find_subseq membership form without wrap / clip; upqsetpv on a cyclic selist never returns (pigeonhole); exact "
+    "correspondence",
     "level_note": "library kernels (argsort, searchsorted, correlate, pandas / numpy indexing and index assignment, "
     "CPython slicing) are modelled and correspondence-checked; upqsetpv outside `Separate` (a later upstream SE "
     "overwriting an earlier flag at a shared place, broadcasting) is tied (correspondence + construction oracle) but "
     "nothing is claimed; make_uset coordinates with split component lists (undocumented) are only modelled; "
     "find_xyz_triples on inexact data (tolerance rule) is tied numerically (exact pv, coordinates / scales to 1e-9) but "
-    "not proved; the matrix routines (formtran, formulvs, formdrm, addulvs) are not modelled",
+    "not proved; the m-set rows of the residual's pha branch are located, not expanded; associativity of the list matrix "
+    "product (ULVS(a->c) = ULVS(a->b) ULVS(b->c)) is checked by the oracle only; the printed text of usetprt is not "
+    "modelled; on the (non-integer) nas2cam test files the matrix routines are compared to 1e-9, not exactly",
     "technique": "Lean 4 proof about executable models + ast translator for mkusetmask + exact differential "
     "correspondence + model-free oracle",
 }
@@ -186,6 +240,8 @@ def _kind(e):
         return "type-error"
     if isinstance(e, RecursionError):
         return "recursion-error"
+    if isinstance(e, RuntimeError):
+        return "runtime-error"
     return "other:" + type(e).__name__
 
 
@@ -311,6 +367,11 @@ def _uset_streams(ctx, cs):
         r = _call(n2p.mkusetmask, spec)
         cs.add("mask", "mask " + (spec if spec else "+"), "ok %d" % r[1] if r[0] == "ok" else r[0],
                {"nasset": spec}, branch="mask:" + ("combo" if r[0] == "ok" else r[0]))
+    # repeated names, members contained in other members, regrouping: the expression is a union
+    for spec in ["b+b", "a+b", "b+a", "a+b+a", "t+b+r", "l+c", "f+a", "g+m", "d+e", "q+b", "b+q", "u1+u1+b", "p+p"]:
+        r = _call(n2p.mkusetmask, spec)
+        cs.add("mask", "mask " + spec, "ok %d" % r[1] if r[0] == "ok" else r[0], {"nasset": spec},
+               branch="mask:repeated-or-overlapping")
     if not all(k in masks for k in NAMED + USER):
         return masks  # the table lost a documented key: the mask stream / build already shows it
 
@@ -669,6 +730,226 @@ def _nas_streams(ctx, cs):
                branch="upqsetpv:separate-real")
     ctx.extra["upqsetpv_spec_hypothesis"] = (
         "Separate (driver op `sep`) holds on all %d consistent generated dictionaries of this run" % nsep)
+
+
+def _tran_reply(r, with_dof=True):
+    from props import c18_tran as T
+
+    if r[0] != "ok":
+        return r[0]
+    if with_dof:
+        m, od = r[1]
+        return "ok %s | %s" % (T.show_mat(m), _s(np.asarray(od).ravel()))
+    return "ok " + T.show_mat(r[1])
+
+
+def _copy_nas(nas):
+    out = dict(nas)
+    if "ulvs" in nas:
+        out["ulvs"] = dict(nas["ulvs"])
+    return out
+
+
+def _tran_streams(ctx, cs, masks):
+    """n2p.formtran / formulvs / formdrm / addulvs on toy nas2cam dictionaries with small integer matrices
+    (harness/props/c18_tran.py): exact comparison of the matrices, the output DOF and the exception kinds"""
+    import warnings
+    from props import c18_nas as N, c18_tran as T
+
+    n2p, _ = _mods()
+    rng = ctx.rng
+    nmask = {k: int(v) for k, v in n2p.mkusetmask().items()}
+    for it in range(ctx.pick(140, 1400)):
+        res_o = it % 3 != 0
+        nas, info = N.gen_nas(rng, deep=(3 + it // 10 % 2) if it % 10 == 0 else None, res_o=res_o)
+        variant = ["phg", "pha", "phg", "pha", "none", "phg"][it % 6] if it < 60 else None
+        tags = T.add_matrices(rng, nas, nmask, variant)
+        for t_ in tags:
+            ctx.count("tran-input:" + t_)
+        secs = N.serialize(nas) + " | " + T.mats_sections(nas)
+        plain = {"nas": N.to_plain(nas), "mats": T.plain_mats(nas), "parent": {str(k): v for k, v in info["parent"].items()},
+                 "expected_upa": {str(k): v for k, v in info["expected_upa"].items()}}
+        ses = info["order"]
+        with warnings.catch_warnings():
+            warnings.simplefilter("ignore")
+            # ---- formtran ----
+            for se in [0] + rng.sample(ses, min(len(ses), 2)):
+                for _ in range(2):
+                    py, kind, sec, rt = T.gen_request(rng, nas["uset"][se], nmask)
+                    gset = se == 0 and rng.random() < 0.35
+                    r = _call(n2p.formtran, nas, se, py, gset)
+                    impl = _tran_reply(r)
+                    if r[0] == "ok":
+                        if se == 0:
+                            br = "formtran0:" + ("gset" if gset else "phg" if 0 in nas["phg"] else "pha")
+                        else:
+                            br = "formtran:" + ("all-a-set" if "a-only" in rt else "general")
+                    else:
+                        br = ("formtran0:" if se == 0 else "formtran:") + r[0]
+                    if r[0] == "ok" and se != 0:
+                        L = T._letters(nas["uset"][se], nmask)
+                        keys = [tuple(k) for k in nas["uset"][se].index.tolist()]
+                        for d_ in T.expand(py):
+                            if d_ in keys:
+                                ctx.count("formtran-row:" + L[keys.index(d_)])
+                        if any(L[keys.index(d_)] not in "qrcb" for d_ in T.expand(py) if d_ in keys):
+                            br = "formtran:general"
+                        else:
+                            br = "formtran:all-a-set"
+                    if "repeated" in rt and r[0] == "ok":
+                        ctx.count("formtran:repeated-dof")
+                    cs.add("formtran", "ftran %d %d %s | %s | %s" % (se, gset, kind, secs, sec), impl,
+                           dict(plain, what="formtran", se=se, dof=py, gset=gset), nontrivial=r[0] == "ok", branch=br)
+            # ---- formulvs ----
+            for c in ses:
+                path = [c]
+                while path[-1] != 0:
+                    path.append(info["parent"][path[-1]])
+                for sedn in ([0] + ([rng.choice(path[1:])] if len(path) > 2 else [])):
+                    kc, sc = rng.random() < 0.6, rng.random() < 0.5
+                    gset = sedn == 0 and rng.random() < 0.3
+                    r = _call(n2p.formulvs, nas, c, sedn, kc, sc, gset)
+                    impl = _tran_reply(r, False)
+                    depth = path.index(sedn)
+                    br = "formulvs:" + (r[0] if r[0] != "ok" else "depth-%d" % min(depth, 3))
+                    if r[0] == "ok" and not kc:
+                        ctx.count("formulvs:keepcset-false")
+                    if r[0] == "ok" and gset:
+                        ctx.count("formulvs:gset")
+                    if r[0] == "ok" and sedn != 0:
+                        ctx.count("formulvs:to-upstream-se")
+                    cs.add("formulvs", "fulvs %d %d %d %d %d | %s | none" % (c, sedn, kc, sc, gset, secs), impl,
+                           dict(plain, what="formulvs", seup=c, sedn=sedn, keepcset=kc, gset=gset),
+                           nontrivial=r[0] == "ok" and depth > 1, branch=br)
+            # seup == sedn, an SE that is not in selist
+            c = rng.choice(ses)
+            for a_, b_ in ((c, c), (0, 0), (999, 0)):
+                r = _call(n2p.formulvs, nas, a_, b_)
+                cs.add("formulvs", "fulvs %d %d 1 1 0 | %s | none" % (a_, b_, secs), _tran_reply(r, False),
+                       dict(plain, what="formulvs-trivial", seup=a_, sedn=b_), nontrivial=False,
+                       branch="formulvs:" + ("one" if r[0] == "ok" and np.ndim(r[1]) == 0 else r[0]))
+            # ---- formdrm ----
+            for c in rng.sample(ses, min(len(ses), 2)):
+                path = [c]
+                while path[-1] != 0:
+                    path.append(info["parent"][path[-1]])
+                sedn = rng.choice(path)
+                py, kind, sec, rt = T.gen_request(rng, nas["uset"][c], nmask)
+                gset = sedn == 0 and rng.random() < 0.3
+                n3, usec3 = nas, "none"
+                if sedn == 0 and rng.random() < 0.4:
+                    # an `ulvs` entry already stored (formdrm asks formulvs with shortcut=True): twice the true matrix
+                    r0_ = _call(n2p.formulvs, nas, c, 0, True, False, False)
+                    if r0_[0] == "ok" and np.ndim(r0_[1]) == 2:
+                        n3 = _copy_nas(nas)
+                        n3["ulvs"] = {c: 2.0 * np.asarray(r0_[1])}
+                        usec3 = T.ulvs_section(n3)
+                        ctx.count("formdrm:stored-ulvs")
+                r = _call(n2p.formdrm, n3, c, py, sedn, gset)
+                impl = _tran_reply(r)
+                br = "formdrm:" + (r[0] if r[0] != "ok" else ("same-se" if sedn == c else "downstream"))
+                cs.add("formdrm", "fdrm %d %d %d %s | %s | %s | %s" % (c, sedn, gset, kind, secs, usec3, sec), impl,
+                       dict(plain, what="formdrm", seup=c, sedn=sedn, dof=py, gset=gset), nontrivial=r[0] == "ok", branch=br)
+            # ---- addulvs (on a copy: it changes the dictionary), with and without an `ulvs` entry already there ----
+            pick = rng.sample(ses, rng.randint(1, min(3, len(ses))))
+            if rng.random() < 0.3:
+                pick.append(pick[0])
+            n2 = _copy_nas(nas)
+            pre = rng.random() < 0.4
+            if pre:
+                n2["ulvs"] = {pick[-1]: np.array([[float(rng.randint(-3, 3)) for _ in range(2)] for _ in range(2)])}
+            usec = T.ulvs_section(n2)
+            kc, sc = rng.random() < 0.7, rng.random() < 0.6
+            r = _call(n2p.addulvs, n2, *pick, keepcset=kc, shortcut=sc)
+            if r[0] == "ok":
+                impl = ("ok " + " ; ".join("%d : %s" % (int(k), T.show_mat(v)) for k, v in n2["ulvs"].items())).strip()
+            else:
+                impl = r[0]
+            br = "addulvs:" + (r[0] if r[0] != "ok" else ("existing-entry" if pre else "new"))
+            cs.add("addulvs", "addulvs 0 %d %d 0 | %s | %s | %s" % (kc, sc, secs, usec, _s(pick)), impl,
+                   dict(plain, what="addulvs", ses=pick, keepcset=kc), nontrivial=r[0] == "ok", branch=br)
+            if pre and sc and r[0] == "ok":
+                ctx.count("addulvs:shortcut-keeps-stored")
+    # ---- usetprt: the returned table ----
+    allsets = "m,s,o,q,r,c,b,e,l,t,a,d,f,fe,n,ne,g,p,u1,u2,u3,u4,u5,u6".split(",")
+    for it in range(ctx.pick(150, 1500)):
+        rows, nas_, style = _gen_table(ctx, masks)
+        r = _call(n2p.make_uset, rows, nas_)
+        if r[0] != "ok":
+            continue
+        uset = r[1]
+        tbl = []
+        for (i, d), w in zip(uset.index.tolist(), uset["nasset"].values.tolist()):
+            tbl += [int(i), int(d), int(w)]
+        r0 = rng.random()
+        if r0 < 0.2:
+            ps, names = "*", "*"
+        elif r0 < 0.35:
+            ps, names = None, "m s o q r c b e l t a f n g"
+        else:
+            pick = [rng.choice(allsets + ["zz"]) for _ in range(rng.randint(1, 6))]
+            names = " ".join(pick)
+            ps = ",".join((" " if rng.random() < 0.3 else "") + (x.upper() if rng.random() < 0.2 else x) for x in pick)
+        r = _call(n2p.usetprt, 0, uset, ps) if ps is not None else _call(n2p.usetprt, 0, uset)
+        if r[0] != "ok":
+            impl, br = r[0], "usetprt:" + r[0]
+        elif r[1] is None:
+            impl, br = "ok none", "usetprt:none"
+        else:
+            t = r[1]
+            body = " ; ".join(_s(list(ix) + list(vals)) for ix, vals in zip(t.index.tolist(), t.values.tolist()))
+            impl = "ok %s | %s" % (" ".join(t.columns.tolist()), body)
+            br = "usetprt:" + ("all-rows" if t.shape[0] == uset.shape[0] else "rows-dropped")
+        cs.add("usetprt", "usetprt | %s | %s" % (_s(tbl), names), impl,
+               {"rows": rows, "nasset": nas_, "printsets": ps}, nontrivial=r[0] == "ok" and r[1] is not None, branch=br)
+
+
+def _tran_real_stream(ctx, cs):
+    """formtran / formulvs / formdrm on the nas2cam files of pyYeti's own tests (non-integer matrices: the model runs
+    over exact rationals, the matrices are compared to 1e-9 of their largest entry, shapes / output DOF / exception
+    kinds exactly)"""
+    import warnings
+    from props import c18_nas as N, c18_tran as T
+
+    n2p, _ = _mods()
+    rng = ctx.rng
+    nmask = {k: int(v) for k, v in n2p.mkusetmask().items()}
+    for name, nas0 in N.real_dictionaries(ctx.repo, matrices=True):
+        nas = {k: v for k, v in nas0.items() if k != "ulvs"}
+        secs = N.serialize(nas) + " | " + T.mats_sections_q(nas)
+        ses = sorted({int(r_[0]) for r_ in np.asarray(nas["selist"]).tolist()})
+        with warnings.catch_warnings():
+            warnings.simplefilter("ignore")
+            for se in ses:
+                u = nas["uset"][se]
+                keys = [(int(i), int(d)) for (i, d) in u.index.tolist()]
+                words = [int(w) for w in u["nasset"].values.tolist()]
+                for want in ("m", "o", "a", "s", "any"):
+                    pool = [k for k, w in zip(keys, words) if want == "any" or (w & nmask[want])]
+                    pool = [k for k, w in zip(keys, words) if k in pool and (w & nmask["g"])]
+                    if not pool:
+                        continue
+                    rows_ = [list(rng.choice(pool)) for _ in range(rng.randint(1, 3))]
+                    if want == "any":
+                        rows_.append(list(rng.choice(keys)))
+                    sec = " ".join(str(v) for r_ in rows_ for v in r_)
+                    gset = se == 0 and rng.random() < 0.3
+                    r = _call(n2p.formtran, nas, se, rows_, gset)
+                    cs.add("formtran-real", "qftran %d %d 2 | %s | %s" % (se, gset, secs, sec), r,
+                           {"file": name, "se": se, "dof": rows_, "gset": gset}, nontrivial=r[0] == "ok",
+                           branch="formtran-real:" + (("set-" + want) if r[0] == "ok" else r[0]))
+                if se != 0:
+                    for kc in (True, False):
+                        r = _call(n2p.formulvs, nas, se, 0, kc, False, False)
+                        cs.add("formulvs-real", "qfulvs %d 0 %d 0 0 | %s" % (se, kc, secs), r,
+                               {"file": name, "seup": se, "keepcset": kc}, nontrivial=r[0] == "ok",
+                               branch="formulvs-real:" + r[0])
+                    rows_ = [list(rng.choice(keys)) for _ in range(2)]
+                    sec = " ".join(str(v) for r_ in rows_ for v in r_)
+                    r = _call(n2p.formdrm, nas, se, rows_, 0, False)
+                    cs.add("formdrm-real", "qfdrm %d 0 0 2 | %s | %s" % (se, secs, sec), r,
+                           {"file": name, "seup": se, "dof": rows_}, nontrivial=r[0] == "ok", branch="formdrm-real:" + r[0])
+        ctx.count("tran-real-dictionary")
 
 
 def _canon_slice(r):
@@ -1165,6 +1446,8 @@ def correspondence(ctx):
     if masks and all(k in masks for k in NAMED + USER):
         _makeuset_xyz_stream(ctx, cs, masks)
         _nas_streams(ctx, cs)
+        _tran_streams(ctx, cs, masks)
+        _tran_real_stream(ctx, cs)
     _locate_streams(ctx, cs)
     _index_streams(ctx, cs)
     _xyz_stream(ctx, cs)
@@ -1180,6 +1463,14 @@ def correspondence(ctx):
             ctx.count("stream:" + stream)
             if not _xyz_match(impl, got_c):
                 ctx.disagree(stream, inp, impl, got_c[:600])
+            continue
+        if stream in ("formtran-real", "formulvs-real", "formdrm-real"):
+            from props import c18_tran as T_
+
+            ctx.case(line[:300] + str(len(line)), nontrivial=nontriv, branch=branch)
+            ctx.count("stream:" + stream)
+            if not T_.match_q(impl, got, with_dof=stream != "formulvs-real"):
+                ctx.disagree(stream, inp, impl[0] if impl[0] != "ok" else "a matrix (float64)", " ".join(got.split())[:300])
             continue
         ctx.case(line, nontrivial=nontriv, branch=branch)
         ctx.count("stream:" + stream)
@@ -1201,7 +1492,7 @@ def correspondence(ctx):
     if ctx.disagreements:
         return  # the tie is broken already; branch labels taken from the implementation's outcome may be missing
     ctx.require_branches([
-        "mask:key", "mask:combo", "mask:key-error",
+        "mask:key", "mask:combo", "mask:key-error", "mask:repeated-or-overlapping",
         "mksetpv:ok", "mksetpv:proper-subset", "mksetpv:value-error", "mksetpv:key-error",
         "expanddof:1d", "expanddof:2d", "expanddof:value-error",
         "mkdofpv:found-all", "mkdofpv:dropped-some", "mkdofpv:value-error", "mkdofpv:empty-set",
@@ -1229,6 +1520,17 @@ def correspondence(ctx):
         "xyz-input:sheared", "xyz-input:perturbed", "xyz-input:exact-only", "xyz-input:row-deleted", "xyz-input:non-orthogonal",
         "mat_intersect-order:unsorted-values", "mat_intersect-order:keep0", "mat_intersect-order:keep1",
         "mat_intersect-order:keep2", "mat_intersect-order:keep-other",
+        "formtran:general", "formtran:all-a-set", "formtran:value-error", "formtran:repeated-dof",
+        "formtran-row:b", "formtran-row:o", "formtran-row:m", "formtran-row:q", "formtran-row:s", "formtran-row:c",
+        "formtran-row:r", "formtran0:gset", "formtran0:phg", "formtran0:pha", "formtran0:runtime-error",
+        "formtran0:value-error", "tran-input:goq-absent", "tran-input:got-absent", "tran-input:gm-no-o",
+        "formulvs:depth-1", "formulvs:depth-2", "formulvs:depth-3", "formulvs:one", "formulvs:value-error",
+        "formulvs:keepcset-false", "formulvs:gset", "formulvs:to-upstream-se", "formulvs:runtime-error",
+        "formulvs:index-error", "formdrm:same-se", "formdrm:downstream", "formdrm:value-error", "formdrm:stored-ulvs",
+        "addulvs:new", "addulvs:existing-entry", "addulvs:shortcut-keeps-stored",
+        "usetprt:all-rows", "usetprt:rows-dropped", "usetprt:none",
+        "tran-real-dictionary", "formtran-real:set-m", "formtran-real:set-o", "formtran-real:set-a",
+        "formulvs-real:ok", "formdrm-real:ok",
     ] + (["findse:absent", "findse:once", "findse:repeated"] if ctx.extra["private_helpers_present"]["_findse"] else [])
       + (["nodeids:one-per-node", "nodeids:fewer"] if ctx.extra["private_helpers_present"]["_get_node_ids"] else [])
       + ["nas-damage:" + w for w in __import__("props.c18_nas", fromlist=["DAMAGES"]).DAMAGES])
@@ -1683,6 +1985,275 @@ def _oracle_locate(ctx, kind, inp):
                      dict(inp, kind=kind), [m, p1, p2], "list1 == [m[i] for i in pv1], list2 == [m[i] for i in pv2], orders kept")
 
 
+def _oracle_tran(ctx, inp):
+    """formtran / formulvs / formdrm / addulvs restated on the API against the defining relations of the stored
+    matrices (c18_tran.full_from_aset / chain_avec: u_o = GOT u_t + GOQ u_q, u_m = GM u_n, u_s = 0, level by level)"""
+    import warnings
+    from props import c18_tran as T
+
+    n2p, _ = _mods()
+    masks = {k: int(v) for k, v in n2p.mkusetmask().items()}
+    nas = T.from_plain(inp["nas"], inp["mats"])
+    parent = {int(k): v for k, v in inp["parent"].items()}
+    upa = {int(k): v for k, v in inp["expected_upa"].items()}
+    what = inp["what"]
+    rs = np.random.default_rng(12345)
+    full_inp = dict(inp, kind="tran")
+
+    def xvec(n):
+        return rs.integers(-3, 4, (n, 2)).astype(float)
+
+    def nset(se, letters):
+        return sum(1 for t in T._letters(nas["uset"][se], masks) if t in letters)
+
+    with warnings.catch_warnings():
+        warnings.simplefilter("ignore")
+        if what in ("formtran", "formdrm"):
+            se = inp["se"] if what == "formtran" else inp["seup"]
+            sedn = se if what == "formtran" else inp["sedn"]
+            gset = bool(inp.get("gset"))
+            dof = inp["dof"]
+            u = nas["uset"][se]
+            keys = [tuple(int(v) for v in k) for k in u.index.tolist()]
+            L = T._letters(u, masks)
+            req = T.expand(dof)
+            missing = [d for d in req if d not in keys or L[keys.index(d)] == "e"]
+            r = _call(n2p.formtran, nas, se, dof, gset) if what == "formtran" else \
+                _call(n2p.formdrm, nas, se, dof, sedn, gset)
+            tag = "%s-%s" % (what, "residual" if se == 0 else "upstream-se")
+            if missing:
+                if r[0] != "value-error":
+                    ctx.fail(tag + "-missing-dof-accepted", "a requested DOF that is not in the g-set must raise ValueError",
+                             full_inp, r[0] if r[0] != "ok" else "a matrix", "ValueError")
+                return
+            # the a-set displacements of `se` for two random load cases at `sedn`
+            if sedn == 0:
+                if gset:
+                    x = xvec(nset(0, "msoqrcb"))
+                elif 0 in nas["phg"]:
+                    x = xvec(nas["phg"][0].shape[1])
+                elif 0 in nas["pha"]:
+                    x = xvec(nas["pha"][0].shape[1])
+                else:
+                    return  # nothing defines the residual's motion: the routine must refuse (correspondence)
+            else:
+                x = xvec(nset(sedn, "qrcb"))
+            try:
+                if se == sedn:
+                    if se == 0:
+                        if gset:
+                            full = np.zeros((len(L), 2))
+                            full[[i for i, t in enumerate(L) if t in "msoqrcb"]] = x
+                        else:
+                            full = T.residual_full(nas, masks, x)
+                            if 0 not in nas["phg"]:
+                                if any(L[keys.index(d)] == "o" for d in req):
+                                    return  # documented: "Routine not set up for this"
+                                ocols = [j for j, t in enumerate([t for t in L if t in "soqrcb"]) if t == "o"]
+                                if "m" in L and any(L[keys.index(d)] == "m" for d in req) and np.any(nas["gm"][0][:, ocols]):
+                                    return
+                    else:
+                        full = T.full_from_aset(nas, se, masks, x)
+                else:
+                    xa = T.chain_avec(nas, masks, parent, upa, se, sedn, x, gset)
+                    if xa is None:
+                        return
+                    full = T.full_from_aset(nas, se, masks, xa)
+            except KeyError:
+                return  # a stored matrix the relations need is missing
+            want = full[[keys.index(d) for d in req]]
+            fam = tag + "-wrong-rows"
+            if len(set(req)) < len(req) and se == 0 and gset:
+                fam = "formtran-se0-gset-repeated-dof"
+            extra_pt = se == 0 and not gset and 0 not in nas["phg"] and "e" in L
+            if r[0] != "ok":
+                ctx.fail("formtran-se0-pha-extra-point-rows" if extra_pt else tag + "-raises",
+                         "%s raises %s on a request whose DOF are all recoverable" % (what, r[0]),
+                         full_inp, r[0], "a matrix with one row per requested DOF")
+                return
+            if extra_pt:
+                fam = "formtran-se0-pha-extra-point-rows"
+            tran, od = r[1]
+            if np.ndim(tran) and np.asarray(tran).shape[1] != x.shape[0]:
+                ctx.fail(tag + "-wrong-columns", "the columns of the result must be the a-set (modal / g-set) DOF of the SE",
+                         full_inp, list(np.asarray(tran).shape), [len(req), int(x.shape[0])])
+                return
+            got = np.asarray(tran) @ x if np.ndim(tran) else x * tran
+            if [tuple(int(v) for v in k) for k in np.asarray(od).reshape(-1, 2).tolist()] != req or \
+                    got.shape != want.shape or not np.array_equal(got, want):
+                ctx.fail(fam, "{DOF} = Tran * {a-set / modal / g-set DOF}: row k of the result must recover requested "
+                         "DOF k from the defining relations (identity on the a-set, GOT/GOQ on the o-set, GM on the "
+                         "m-set, 0 on the s-set)", full_inp, np.asarray(got).tolist(), want.tolist())
+        elif what == "formulvs":
+            c, sedn, kc, gset = inp["seup"], inp["sedn"], bool(inp["keepcset"]), bool(inp.get("gset"))
+            r = _call(n2p.formulvs, nas, c, sedn, kc, False, gset)
+            if r[0] != "ok" and kc and c != sedn:
+                # a refusal where the defining relations give the answer
+                x0 = None
+                if sedn != 0:
+                    x0 = xvec(nset(sedn, "qrcb"))
+                elif gset:
+                    x0 = xvec(nset(0, "msoqrcb"))
+                elif 0 in nas["phg"]:
+                    x0 = xvec(nas["phg"][0].shape[1])
+                elif 0 in nas["pha"]:
+                    x0 = xvec(nas["pha"][0].shape[1])
+                try:
+                    xa0 = None if x0 is None else T.chain_avec(nas, masks, parent, upa, c, sedn, x0, gset)
+                except KeyError:
+                    xa0 = None
+                if xa0 is not None:
+                    ctx.fail("formulvs-raises", "formulvs raises %s although every level is defined" % r[0], full_inp,
+                             r[0], "the transformation to the a-set of the upstream SE")
+                return
+            if r[0] != "ok" or np.ndim(r[1]) == 0:
+                return  # other refusals are compared by the correspondence; nothing to restate
+            ul = np.asarray(r[1])
+            # (1) the chain: ULVS(c -> sedn) = ULVS(c -> p) @ ULVS(p -> sedn) for the SE p just below c
+            p_ = parent.get(c)
+            if p_ is not None and p_ != sedn:
+                r1 = _call(n2p.formulvs, nas, c, p_, kc, False, gset)
+                r2 = _call(n2p.formulvs, nas, p_, sedn, kc, False, gset)
+                if r1[0] == "ok" and r2[0] == "ok":
+                    prod = np.asarray(r1[1]) @ np.asarray(r2[1])
+                    if prod.shape != ul.shape or not np.array_equal(prod, ul):
+                        ctx.fail("formulvs-chain-not-the-product", "ULVS(seup -> sedn) must be ULVS(seup -> p) @ ULVS(p -> sedn)",
+                                 full_inp, ul.tolist(), prod.tolist())
+                        return
+            # (1b) keepcset=False: the product of the single-level matrices (each verified by (2) when it is asked for
+            #      with keepcset=True) after the c-set rows (upstream SE) and columns (downstream SE, not the residual)
+            #      are struck out - by the documented membership, not by mksetpv
+            if not kc:
+                path = [c]
+                while path[-1] != sedn and path[-1] in parent:
+                    path.append(parent[path[-1]])
+                prod, okp = None, path[-1] == sedn
+                for a_, b_ in zip(path, path[1:]):
+                    r1 = _call(n2p.formulvs, nas, a_, b_, True, False, gset)
+                    if r1[0] != "ok" or np.ndim(r1[1]) != 2:
+                        okp = False
+                        break
+                    La = [t for t in T._letters(nas["uset"][a_], masks) if t in "qrcb"]
+                    Lb = [t for t in T._letters(nas["uset"][b_], masks) if t in "qrcb"]
+                    m1 = np.asarray(r1[1])
+                    if m1.shape[0] != len(La) or (b_ != 0 and m1.shape[1] != len(Lb)):
+                        okp = False  # skipped boundary DOF (maps shorter than the a-set): the masks do not fit
+                        break
+                    m1 = m1[[i for i, t in enumerate(La) if t != "c"]]
+                    if b_ != 0:
+                        m1 = m1[:, [i for i, t in enumerate(Lb) if t != "c"]]
+                    prod = m1 if prod is None else prod @ m1
+                if okp and prod is not None and (prod.shape != ul.shape or not np.array_equal(prod, ul)):
+                    ctx.fail("formulvs-keepcset-false-wrong", "with keepcset=False the c-set rows of the upstream SE and the "
+                             "c-set columns of the downstream SE are struck out of every level before multiplying",
+                             full_inp, ul.tolist(), prod.tolist())
+                    return
+            # (2) the physical relation (all sets kept)
+            if kc:
+                if sedn == 0:
+                    if gset:
+                        x = xvec(nset(0, "msoqrcb"))
+                    elif 0 in nas["phg"]:
+                        x = xvec(nas["phg"][0].shape[1])
+                    elif 0 in nas["pha"]:
+                        x = xvec(nas["pha"][0].shape[1])
+                    else:
+                        return
+                else:
+                    x = xvec(nset(sedn, "qrcb"))
+                try:
+                    xa = T.chain_avec(nas, masks, parent, upa, c, sedn, x, gset)
+                except KeyError:
+                    return
+                if xa is None:
+                    return
+                got = ul @ x
+                if got.shape != xa.shape or not np.array_equal(got, xa):
+                    ctx.fail("formulvs-wrong-recovery", "{upstream T & Q} = ULVS * {downstream DOF}: the a-set displacements of "
+                             "the upstream SE, recovered level by level from the defining relations", full_inp,
+                             got.tolist(), xa.tolist())
+        elif what == "addulvs":
+            ses, kc = inp["ses"], bool(inp["keepcset"])
+            n2 = dict(nas)
+            r = _call(n2p.addulvs, n2, *ses, keepcset=kc)
+            if r[0] != "ok":
+                return
+            for se in ses:
+                r1 = _call(n2p.formulvs, nas, se, 0, kc, False)
+                if r1[0] != "ok" or se not in n2.get("ulvs", {}) or not np.array_equal(np.asarray(n2["ulvs"][se]), np.asarray(r1[1])):
+                    ctx.fail("addulvs-stored-is-not-formulvs", "nas['ulvs'][se] must be formulvs(nas, se) for every listed SE",
+                             full_inp, "entry of SE %d" % se, "formulvs(nas, %d)" % se)
+                    return
+            r2 = _call(n2p.formulvs, n2, ses[0], 0, kc, True)
+            if r2[0] != "ok" or not np.array_equal(np.asarray(r2[1]), np.asarray(n2["ulvs"][ses[0]])):
+                ctx.fail("addulvs-shortcut-differs", "formulvs(shortcut=True) after addulvs must return the stored matrix",
+                         full_inp, r2[0], "the stored matrix")
+
+
+def _oracle_usetprt(ctx, inp):
+    """the table usetprt returns: one column per requested set (in the documented order), one row per DOF that is in
+    at least one requested set, in table order; an entry is the DOF's number within the set (from 1) or 0"""
+    n2p, _ = _mods()
+    rows, nas_, ps = inp["rows"], inp["nasset"], inp["printsets"]
+    uset = n2p.make_uset(rows, nas_)
+    base = []
+    for r_, l in zip(rows, nas_):
+        base += [l] * (6 if r_[1] == 123456 else 1)
+    order = "m,s,o,q,r,c,b,e,l,t,a,d,f,fe,n,ne,g,p,u1,u2,u3,u4,u5,u6".split(",")
+    if ps == "*":
+        req = order
+    else:
+        want_names = [x.strip().lower() for x in (ps or "m,s,o,q,r,c,b,e,l,t,a,f,n,g").split(",")]
+        req = [x for x in order if x in want_names]
+    cols = {}
+    for x in req:
+        k, col = 0, []
+        for b in base:
+            if x in MEMBERS and b in MEMBERS[x]:
+                k += 1
+                col.append(k)
+            else:
+                col.append(0)
+        cols[x] = col
+    want = [[int(i), int(d), n + 1] + [cols[x][n] for x in req]
+            for n, (i, d) in enumerate(uset.index.tolist()) if any(cols[x][n] for x in req)]
+    r = _call(n2p.usetprt, 0, uset, ps) if ps is not None else _call(n2p.usetprt, 0, uset)
+    finp = dict(inp, kind="usetprt")
+    if r[0] != "ok":
+        ctx.fail("usetprt-raises", "usetprt raises", finp, r[0], want)
+        return
+    t = r[1]
+    got = [] if t is None else [list(map(int, ix)) + list(map(int, v)) for ix, v in zip(t.index.tolist(), t.values.tolist())]
+    names = [] if t is None else t.columns.tolist()
+    if got != want or (t is not None and names != req):
+        ctx.fail("usetprt-table-not-the-partition-listing", "every DOF of the requested sets exactly once, in table order, "
+                 "numbered within each set; columns in the documented order", finp, [names, got], [req, want])
+
+
+def _probe_findings(ctx):
+    """two fixed inputs on which the unchanged code contradicts `{DOF} = Tran * {…}` (found while the matrix routines
+    were modelled; each under its own family so that known_findings.json can list them)"""
+    from props import c18_tran as T
+    from props import c18_nas as N
+
+    n2p, _ = _mods()
+    masks = {k: int(v) for k, v in n2p.mkusetmask().items()}
+    b, q, e = masks["b"], masks["q"], masks["e"]
+    # (1) formtran(nas, 0, dof, gset=True) with a DOF named twice: the first of the two rows is all zero
+    #     (`tran[:, pvdof] = np.eye(len(pvdof))`: the later column assignment wins)
+    nas = {"selist": [[0, 0]], "uset": {"0": [[1, d, b] for d in range(1, 7)] + [[2, 0, q]]}, "dnids": {}, "maps": {}, "upids": {}}
+    plain = {"nas": nas, "mats": {}, "parent": {}, "expected_upa": {}}
+    _oracle_tran(ctx, dict(plain, what="formtran", se=0, dof=[[1, 12], [1, 2], [2, 0]], gset=True))
+    # (2) _formtran_0 through nas['pha'] with an extra point (e-set) in front of a-set DOF: positions within the
+    #     g-set are used as rows of the whole table (`iddof[a]`), the request is answered with RuntimeError
+    nas = {"selist": [[0, 0]], "uset": {"0": [[1, 0, e]] + [[2, d, b] for d in range(1, 7)] + [[3, 0, q]]},
+           "dnids": {}, "maps": {}, "upids": {}}
+    pha = {"0": {"shape": [7, 2], "data": [float(v) for v in range(14)]}}
+    plain = {"nas": nas, "mats": {"pha": pha}, "parent": {}, "expected_upa": {}}
+    _oracle_tran(ctx, dict(plain, what="formtran", se=0, dof=[[2, 1], [3, 0]], gset=False))
+    ctx.count("oracle:finding-probes", 2)
+
+
 def _corpus(ctx):
     path = os.path.join(ctx.verif, "corpus", "c18.json")
     return json.load(open(path)) if os.path.exists(path) else []
@@ -1708,6 +2279,10 @@ def _run_one(ctx, inp):
         _oracle_maskplus(ctx, inp["spec"])
     elif k == "findse":
         _oracle_findse(ctx, inp["selist"], inp["se"])
+    elif k == "tran":
+        _oracle_tran(ctx, inp)
+    elif k == "usetprt":
+        _oracle_usetprt(ctx, inp)
     elif k == "xyz":
         _oracle_xyz(ctx, [([tuple(x) for x in perm], sc, tuple(p)) for perm, sc, p in inp["nodes"]], inp["tol"],
                     inp.get("perturb", 0.0))
@@ -1743,6 +2318,10 @@ def _hint_to_input(h):
             return dict(i, kind="matint") if i["keep"] in (0, 1, 2) else None  # other values are undocumented
         if s == "findse":
             return dict(i, kind="findse")
+        if s in ("formtran", "formulvs", "formdrm", "addulvs"):
+            return dict(i, kind="tran") if i.get("what") in ("formtran", "formulvs", "formdrm", "addulvs") else None
+        if s == "usetprt":
+            return dict(i, kind="usetprt") if all(isinstance(x, str) and x in BASE for x in i["nasset"]) else None
         if s == "find_subseq":
             return dict(i, kind="subseq")
         if s in ("flippv", "index2bool"):
@@ -1831,7 +2410,8 @@ def search(ctx, hints):
         _oracle_makeuset(ctx, inp)
         ctx.count("oracle:make_uset")
         _oracle_maskplus(ctx, "+".join(rng.sample(NAMED + USER, rng.randint(2, 4))))
-        ctx.count("oracle:maskplus")
+        _oracle_maskplus(ctx, "+".join(rng.choice(NAMED + USER) for _ in range(rng.randint(2, 4))))  # with repeats
+        ctx.count("oracle:maskplus", 2)
     # base stream 2c: upasetpv / upqsetpv on generated dictionaries (expected vectors known by construction)
     from props import c18_nas as N
     for it in range(ctx.pick(120, 1200)):
@@ -1858,6 +2438,60 @@ def search(ctx, hints):
         for s_, exp in info["expected_upq"].items():
             _oracle_nas(ctx, {"nas": plain, "sedn": s_, "expected": exp, "style": info["style"]})
             ctx.count("oracle:upqsetpv")
+    # base stream 2d: formtran / formulvs / formdrm / addulvs against the defining relations of the stored matrices,
+    # usetprt against the documented membership
+    from props import c18_tran as T
+    for it in range(ctx.pick(50, 500)):
+        nas, info = N.gen_nas(rng, deep=(3 + it // 8 % 2) if it % 8 == 0 else None, res_o=it % 3 != 0)
+        T.add_matrices(rng, nas, masks_, ["phg", "pha", "phg"][it % 3])
+        plain = {"nas": N.to_plain(nas), "mats": T.plain_mats(nas), "parent": {str(k): v for k, v in info["parent"].items()},
+                 "expected_upa": {str(k): v for k, v in info["expected_upa"].items()}}
+        ses = info["order"]
+        for se in [0] + rng.sample(ses, min(2, len(ses))):
+            py, _k, _sec, rt = T.gen_request(rng, nas["uset"][se], masks_)
+            if se == 0 and not isinstance(py[0], int):
+                # a DOF named twice (also through overlapping component lists) on the residual: see _probe_findings
+                seen_, py2 = set(), []
+                for i_, a_ in py:
+                    comps = "".join(ch for ch in str(a_) if (i_, int(ch)) not in seen_)
+                    seen_.update((i_, int(ch)) for ch in str(a_))
+                    if comps:
+                        py2.append([i_, int(comps)])
+                py = py2
+            _oracle_tran(ctx, dict(plain, what="formtran", se=se, dof=py, gset=se == 0 and rng.random() < 0.4))
+            ctx.count("oracle:formtran")
+        for c in ses:
+            path = [c]
+            while path[-1] != 0:
+                path.append(info["parent"][path[-1]])
+            sedn = rng.choice(path[1:])
+            _oracle_tran(ctx, dict(plain, what="formulvs", seup=c, sedn=sedn, keepcset=rng.random() < 0.7,
+                                   gset=sedn == 0 and rng.random() < 0.3))
+            ctx.count("oracle:formulvs")
+            if len(path) > 2:
+                ctx.count("oracle:formulvs-multilevel")
+        c = rng.choice(ses)
+        path = [c]
+        while path[-1] != 0:
+            path.append(info["parent"][path[-1]])
+        py, _k, _sec, rt = T.gen_request(rng, nas["uset"][c], masks_)
+        sedn = rng.choice(path)
+        _oracle_tran(ctx, dict(plain, what="formdrm", seup=c, sedn=sedn, dof=py, gset=sedn == 0 and rng.random() < 0.3))
+        ctx.count("oracle:formdrm")
+        _oracle_tran(ctx, dict(plain, what="addulvs", ses=rng.sample(ses, rng.randint(1, min(3, len(ses)))), keepcset=True))
+        ctx.count("oracle:addulvs")
+    for _ in range(ctx.pick(100, 1000)):
+        npts = rng.randint(1, 4)
+        ids = rng.sample(range(1, 30), npts)
+        rows = [[i, rng.choice([0, 123456])] for i in ids]
+        nas_ = [rng.choice(BASE) for _ in rows]
+        r0 = rng.random()
+        ps = "*" if r0 < 0.2 else None if r0 < 0.3 else ",".join(
+            (" " if rng.random() < 0.3 else "") + (x.upper() if rng.random() < 0.2 else x)
+            for x in [rng.choice(NAMED + USER + ["zz"]) for _ in range(rng.randint(1, 5))])
+        _oracle_usetprt(ctx, {"rows": rows, "nasset": nas_, "printsets": ps})
+        ctx.count("oracle:usetprt")
+    _probe_findings(ctx)
     # base stream 3: locate helpers
     for _ in range(ctx.pick(400, 4000)):
         _oracle_locate(ctx, "dups", {"v": _gen_intlist(rng, -3, 5, rng.choice([0, 1, 2, 5, 12])), "tol": rng.choice([0, 0, 1, 2])})
